@@ -8,12 +8,12 @@
 (***************************************************************************)
 EXTENDS PacketProps, Universes, Json
 
-CONSTANTS Part, NParts, MaxCtx, FullCross
+CONSTANTS UName, Part, NParts, MaxCtx, FullCross
 
 VARIABLES di, dd, dp, input, pre, post, m1, m2
 vars == <<di, dd, dp, input, pre, post, m1, m2>>
 
-U == U_C14
+U == PickU(UName)
 USeq == SetToSeq(U)
 ASSUME Part = 0 => PrintT(<<"UNIV", ToJson(USeq)>>)
 
